@@ -106,7 +106,10 @@ func init() {
 		return rep.Finish()
 	}
 	Replayers["C11"] = func(wit json.RawMessage) []core.Violation { return histReplay(wit, "C11") }
-	regHist("C06", c06Scenarios, 4, 6, "explicit-state BFS over histories: unconfirmed R1 (relevant), I1 (irrelevant), R3 delivered from trusted/untrusted peers; blocks confirming D1 (relevant double spend of R1), D2 (irrelevant double spend of R1), M1 (double spends I1 and R3), with or without the winner seen before; oracle: cancelled+unsafe update for every previously delivered loser, chain advances (block on the node's chain), block's relevant txs delivered with verified proofs", nil)
+	regHist("C06", c06Scenarios, 4, 6, "explicit-state BFS over histories: unconfirmed R1 (relevant), I1 (irrelevant), R3 delivered from trusted/untrusted peers; blocks confirming D1 (relevant double spend of R1), D2 (irrelevant double spend of R1), M1 (double spends I1 and R3), with or without the winner seen before; oracle: cancelled+unsafe update for every previously delivered loser, chain advances (block on the node's chain), block's relevant txs delivered with verified proofs", func(v core.Violation) bool {
+		// "the block's own relevant transactions are delivered with proofs" is observed by the C03/C04 oracles
+		return (v.Clause == "relevant-delivered" && strings.Contains(v.Class, "in processed block")) || v.Property == "C04"
+	})
 	regHist("C07", c07Scenarios, 4, 6, "explicit-state BFS over histories with the virtual clock (safe delay 2000 ms; steps 100/1900/2300 ms): untrusted tx, trusted inv, trusted tx, conflict before/between/after expiry, confirmation, local submission, restart; oracle on the per-txid sequence of states: never safe&unsafe, cancelled=>unsafe, no safe after unsafe, safe only with trusted vouch + no known conflict + delay, safe at most once, and (liveness phase from every state) safe within delay+500 ms when warranted", nil)
 	regHist("C14", c14Scenarios, 4, 6, "explicit-state BFS over histories of inv announcements of overlapping txid sets from the trusted and two verified untrusted connections, deliveries, non-deliveries, pings (peer activity), clock steps 1 s / 3.1 s, confirmation; oracle over timestamped getdata(tx) on all connections: no two requests for a txid within 3 s, none after the body arrived, none after its block was processed, re-request from another announcer after the window", nil, c14Component)
 }
